@@ -208,9 +208,16 @@ Fixpoint dedupe_ids (l : list node) : list node :=
 Definition eligible (is_self : node -> bool) (requester_key : N) (x : node) : bool :=
   negb (is_self x) && negb (n_id x =? requester_key).
 
+(* find_closest_nodes_local (everything known, not the node itself, nearest [cap]) followed by
+   filter_response_nodes (the requester is dropped AFTER the cut, as the code does: a requester
+   among the nearest [cap] leaves a reply of cap - 1 nodes). *)
+Definition known_others (is_self : node -> bool) (connected from_table : list node) : list node :=
+  filter (fun x => negb (is_self x)) (dedupe_ids (connected ++ from_table)).
+Definition local_closest (is_self : node -> bool) (key cap : N) (connected from_table : list node) : list node :=
+  takeN cap (sort_by_dist key (known_others is_self connected from_table)).
 Definition reply_nodes (is_self : node -> bool) (requester_key key cap : N)
                        (connected from_table : list node) : list node :=
-  takeN cap (sort_by_dist key (filter (eligible is_self requester_key) (dedupe_ids (connected ++ from_table)))).
+  filter (fun x => negb (n_id x =? requester_key)) (local_closest is_self key cap connected from_table).
 
 (* ---------- executable interface for the correspondence check ---------- *)
 Definition obs_eqb (a b : obs) : bool :=
@@ -283,3 +290,33 @@ Fixpoint prop_run (t : table) (ops : list op) (observed : list obs) : bool :=
 
 Definition prop_case (c : case3) : bool :=
   let '(local, ops, observed) := c in prop_run (start local) ops observed.
+
+(* ---------- manager-level replies of real nodes (harness c02net) ----------
+   One case = one NodesFound reply seen on the wire: the DHT keys under which the replying node
+   counts as itself, the requester, the target key, the cap, what the replier knew BEFORE the
+   lookup started and AFTER it ended (its knowledge can only grow in between: the requester and
+   other lookups dial it), and the reply.  The reply must be [reply_nodes] of SOME knowledge K
+   with before <= K <= after; if it is, it is also [reply_nodes] of reply ++ before (the requester
+   was outside the nearest cap) or of requester :: reply ++ before (it was inside and was
+   dropped after the cut), which is what is evaluated. *)
+Definition rcase := (list N * node * N * N * list node * list node * list node)%type.
+Definition is_self_in (selfks : list N) (x : node) : bool := existsb (N.eqb (n_id x)) selfks.
+Definition subset_nodes (a b : list node) : bool := forallb (fun x => existsb (node_eqb x) b) a.
+Definition reply_from (selfks : list N) (req : node) (key cap : N) (k reply : list node) : bool :=
+  nodes_eqb reply (reply_nodes (is_self_in selfks) (n_id req) key cap k []).
+Definition check_rcase (c : rcase) : bool :=
+  let '(selfks, req, key, cap, before, after, reply) := c in
+  subset_nodes reply after &&
+  (reply_from selfks req key cap (reply ++ before) reply ||
+   (existsb (node_eqb req) after && reply_from selfks req key cap (req :: reply ++ before) reply)).
+
+(* the conclusion of C02_reply evaluated on the implementation's reply *)
+Definition prop_rcase (c : rcase) : bool :=
+  let '(selfks, req, key, cap, before, after, reply) := c in
+  let n := N.of_nat (length reply) in
+  (n <=? cap) && strictly_ascending key reply &&
+  forallb (fun x => negb (is_self_in selfks x) && negb (n_id x =? n_id req) && existsb (node_eqb x) after) reply &&
+  forallb (fun u => is_self_in selfks u || (n_id u =? n_id req) || existsb (node_eqb u) reply ||
+                    (forallb (fun x => dist key (n_id x) <? dist key (n_id u)) reply &&
+                     ((cap <=? n) || ((cap <=? n + 1) && existsb (node_eqb req) after &&
+                                      (dist key (n_id req) <? dist key (n_id u)))))) before.
